@@ -194,7 +194,9 @@ func (w *world) genesis(st *setup) error {
 	nutils.EncodeVarUint(args, 1)
 	nutils.EncodeAddress(args, addrOf(idBank))
 	nutils.EncodeVarUint(args, constants.ONT_TOTAL_SUPPLY)
-	if _, err, _ := w.invoke(&call{ontC, ont.INIT_NAME, args.Bytes(), nil, h, t}); err != nil {
+	oargs := common.NewZeroCopySink(nil)
+	oargs.WriteVarBytes(args.Bytes())
+	if _, err, _ := w.invoke(&call{ontC, ont.INIT_NAME, oargs.Bytes(), nil, h, t}); err != nil {
 		return fmt.Errorf("ont init: %v", err)
 	}
 	if _, err, _ := w.invoke(&call{ongC, ont.INIT_NAME, []byte{}, nil, h, t}); err != nil {
@@ -216,8 +218,9 @@ func (w *world) genesis(st *setup) error {
 		AdminOntID: "did:ont:AdjfcJgwru2FD8kotCPvLDXYzRjqFjc9Tb", VrfValue: vrfStr, VrfProof: vrfStr}
 	var sum uint64
 	for i, p := range st.Peers {
+		oa := addrOf(p.Owner)
 		cfg.Peers = append(cfg.Peers, &config.VBFTPeerStakeInfo{Index: uint32(i + 1), PeerPubkey: keyOf(p.Peer),
-			Address: addrOf(p.Owner).ToBase58(), InitPos: p.Init})
+			Address: oa.ToBase58(), InitPos: p.Init})
 		sum += p.Init
 	}
 	cs := common.NewZeroCopySink(nil)
